@@ -229,6 +229,9 @@ pub fn do_upgrade(ex: &mut Exec<'_>, aborted: bool) -> Result<(), Stop> {
     ex.committed_dump = now.clone();
     ex.mark_after_upgrade();
     ex.out.stats.state_hashes.push(crate::decode::dump_hash(&now));
+    if ex.focus == "C17" {
+        ex.out.stats.nontrivial.push(crate::decode::dump_hash(&now));
+    }
     // opens (or demands a build iff updates were pending), C01, queries
     let dec = match crate::decode::decode_dump(&now, &|i| world.metric_of(i)) {
         Ok(d) => d,
